@@ -11,9 +11,11 @@ import (
 	"fmt"
 	"io"
 	"os"
+	"os/signal"
 	"reflect"
 	"runtime/debug"
 	"strings"
+	"syscall"
 
 	"github.com/reeflective/readline"
 	"github.com/reeflective/readline/inputrc"
@@ -196,6 +198,8 @@ func main() {
 		fmt.Sscan(os.Args[2], &fd)
 	}
 	rep = os.NewFile(uintptr(fd), "report")
+	// a hang-up of the terminal must reach the library as a failing read, not kill the process
+	signal.Ignore(syscall.SIGHUP)
 	data, err := os.ReadFile(os.Args[1])
 	if err != nil {
 		fmt.Fprintln(os.Stderr, err)
